@@ -208,6 +208,27 @@ theorem C11_inplace_stores_are_model_ops (hk : K → BitVec 8) (c : List (Model.
   ⟨Proofs.StoreSpec.update_is_upd hk c hrep j i b hb hi k old v hs hfirst,
    Proofs.StoreSpec.delete_is_del hk c hrep j i b hb hi k old hs hfirst⟩
 
+/-- **update / delete, then load, on the printed `Load`**: on the heap that results from the in-place update (resp. the
+delete) of the slot the search found, the printed `MapOf.Load` returns the new value for that key (resp. reports absence),
+and every other key of that root bucket reads exactly as before -/
+theorem C11_source_store_then_load (fuel : Nat) (hf : 8 ≤ fuel) (h : Deep.T.Heap K V) (k : K)
+    (c : List (Model.Words.BucketOf K V)) (hc : h.chains[(Proofs.DeepLoad.bidxOf h k).toNat]? = some c) (hne : c ≠ [])
+    (hfuel : c.length ≤ fuel) (hrep : ∀ b ∈ c, Model.Words.RepB (Proofs.DeepLoad.hkOf h) b)
+    (hnd : (chainKeys (Model.Words.flat c)).Nodup) (j i : Nat) (b : Model.Words.BucketOf K V) (hb : c[j]? = some b)
+    (hi : i < 5) (old v : V) (hs : b.entries[i]? = some (some (k, old)))
+    (hfirst : Proofs.StoreSpec.FirstAt k (Model.Words.flat c) (5 * j + i)) :
+    let hu : Deep.T.Heap K V :=
+      { h with chains := (h.chains.set (Proofs.DeepLoad.bidxOf h k).toNat (c.set j ⟨b.metaw, b.entries.set i (some (k, v))⟩)) }
+    let hd : Deep.T.Heap K V :=
+      { h with chains := (h.chains.set (Proofs.DeepLoad.bidxOf h k).toNat
+          (c.set j ⟨Gen.setByte b.metaw Gen.emptyMetaSlot i, b.entries.set i none⟩)) }
+    Deep.T.call fuel hu Gen.Deep.T_MapOf_Load [.key k] = some [.val v, .bool true] ∧
+    Deep.T.call fuel hd Gen.Deep.T_MapOf_Load [.key k] = some [.zeroV, .bool false] ∧
+    ∀ x, Proofs.DeepLoad.bidxOf h x = Proofs.DeepLoad.bidxOf h k → x ≠ k →
+      Deep.T.call fuel hu Gen.Deep.T_MapOf_Load [.key x] = Deep.T.call fuel h Gen.Deep.T_MapOf_Load [.key x] ∧
+      Deep.T.call fuel hd Gen.Deep.T_MapOf_Load [.key x] = Deep.T.call fuel h Gen.Deep.T_MapOf_Load [.key x] :=
+  Proofs.CopyRep.store_then_load fuel hf h k c hc hne hfuel hrep hnd j i b hb hi old v hs hfirst
+
 /-! Non-vacuity: a free slot in the root bucket is filled; a full one-bucket chain gets a new bucket. -/
 def exFullB : Model.Words.BucketOf Nat Nat := ⟨0#64, [some (1, 1), some (2, 2), some (3, 3), some (4, 4), some (5, 5)]⟩
 def exAppHeap : Deep.T.Heap Nat Nat :=
